@@ -9,175 +9,9 @@ H = "engine_h"
 G = "engine_g"
 F = "engine_f"
 
-# id -> (engine, design_ref, technique, level category, level text, level note)
-CHECKS = {
-    "C01": (H, "DESIGN.md section 4 C01",
-            "explicit-state BFS over operation histories on the real objects, to fixpoint; invariant on every state",
-            "model_checking",
-            "All histories of any length of the structure alphabet (constructors incl. ill-typed, v1/v2 "
-            "assignment incl. None, explicit.link_*/unlink, add_to_link/remove_from_link, add_vertex/"
-            "unlink_from) over each bounded pool are explored on the real code until no new canonical "
-            "state appears; the symmetry / no-duplicate invariant is evaluated after every call, "
-            "including calls that raised. This is the property's own quantifier (all histories, all "
-            "aliasings) on a small scope.",
-            "Bounded pools (2-3 vertices + None, <=2-3 links, arity <=3); states merged on the full vars() "
-            "of every object (uids dropped) via a 128-bit digest; deepcopy-based successor generation is "
-            "validated by re-building every expanded state from its history."),
-    "C02": (H, "DESIGN.md section 4 C02",
-            "explicit-state BFS over membership-call histories on the real objects, to fixpoint; invariant + ordered reference model on every transition",
-            "model_checking",
-            "All histories of the four membership calls (from either side) over pools of vertices and universes "
-            "(universes are members too, also of themselves) are explored to fixpoint; both constructors with "
-            "every argument sequence (repetitions, list/tuple/generator/None) up to a length bound are applied in "
-            "every reached state. After every call the symmetry / no-duplicate invariant and equality with the "
-            "reference model's insertion-ordered lists are checked; removing a non-member must raise and change nothing.",
-            "Bounded pools (<=3 vertices, <=3 universes, <=1 constructed object per history, |S|<=3); quick tier "
-            "checks constructor calls as leaf transitions (not expanded further)."),
-    "C03": (H, "DESIGN.md section 4 C03 / 3.3",
-            "explicit-state BFS to fixpoint; conformance of every transition to a relational reference model",
-            "model_checking",
-            "Same state graphs as C01 plus pools with universes; for every transition the observed (post-state, "
-            "return value), read through public accessors, must be one of the outcomes the plain reference model "
-            "allows for (pre-state, op): this is the frame condition (exactly the documented lists change).",
-            "Reference model slack documented in DESIGN 3.3 (own-list position on re-assignment; calls on links "
-            "with other than two ends are unspecified and only subject to C01). Bounded pools."),
-    "C17": (H, "DESIGN.md section 4 C17",
-            "explicit-state BFS to fixpoint over construct/add_mapping/drop/clear histories, reference model carried along, every transition replayed from scratch",
-            "model_checking",
-            "All histories over pools of classes (own metaclass, shared metaclass object, subclasses, custom hash "
-            "function) and argument keys (-1/-2, keyword permutations) are explored to fixpoint; per step the "
-            "identity of the returned object, its type, the __init__ count and the complete check/get_all table "
-            "of every class are compared with a per-class key->instance model.",
-            "Bounded pools (<=3 classes, <=6 argument keys); states merged on the real metaclass/class dict "
-            "attributes; constructor arguments stored on instances are not part of the state."),
-    "C18": (H, "DESIGN.md section 4 C18",
-            "explicit-state BFS to fixpoint over construct/clear histories with a reference model",
-            "model_checking",
-            "All histories of constructions (argument shapes incl. one that makes __init__ raise, a class whose "
-            "__init__ constructs another singleton) and targeted/global clears over a class, a subclass chain and "
-            "two independent classes; identity, __init__ count, first-call arguments and the live-class table are "
-            "compared with the model after every call.",
-            "Bounded pool of 4-5 classes and 4-5 argument shapes; the state space is small (which classes are "
-            "live), the fixpoint is reached at depth <= 5."),
-    "C19": (H, "DESIGN.md section 4 C19",
-            "explicit-state BFS to fixpoint over assignment histories; bijection invariant on every state",
-            "model_checking",
-            "All histories of U.laws = L|None, L.applies_to = U|None and Universe(laws=L|None) over a pool of "
-            "universes and law sets: every assignment must succeed and `U.laws is L <=> L.applies_to is U` must "
-            "hold in every reached state; plus the complete product of constructor inputs for the rule attributes "
-            "(read back exactly, not assignable, before and after binding / moving).",
-            "Bounded pool (2 universes + <=2 constructed, <=3 free law sets); UniverseLaws(applies_to=...) is "
-            "not in the property's alphabet and is not driven."),
-    "C04": (G, "DESIGN.md section 4 C04 / 3.4",
-            "exhaustive enumeration of all small ordered multigraphs (construction state graph) x full query-parameter product, against a decision-table oracle",
-            "model_checking",
-            "Every ordered multigraph with <=3 vertices and <=2-3 links over six link classes (both edge classes, a "
-            "subclass of each, TwoEndedLink, another TwoEndedLink subclass; self-loops, parallel edges; every "
-            "construction order) is built on the real code; in every state every vertex x 3 directions x 3 unknown "
-            "modes x 5 filters is compared with an independent oracle (exact list), and the forward/backward "
-            "duality is checked on the real function.",
-            "Caching off; ends are vertices. ERROR mode: if the filter rejects every unknown-class link at v, "
-            "raising and not raising are both accepted."),
-    "C06": (G, "DESIGN.md section 4 C06",
-            "exhaustive enumeration of small ordered multigraphs x start x universe x direction x unknown x filter product; reach-set oracle over the real neighbors()",
-            "model_checking",
-            "For every graph state and every configuration the three traversals' list forms are compared with the "
-            "closure of the start under the real neighbors() within the universe (no repetition, starts with the "
-            "start, exact set, ff_result only removes entries), generator forms with list forms element by element, "
-            "NotImplementedError propagation and termination (expansion budget) are checked.",
-            "Small scope: <=3-5 vertices, <=3-4 links; the 5-vertex space uses undirected links on i<j pairs and "
-            "the lean configuration product; start is a member of the universe."),
-    "C07": (G, "DESIGN.md section 4 C07",
-            "same exhaustive enumeration as C06; order oracle = reference BFS / pre-order DFS / explicit-stack DFS over the real neighbors()",
-            "model_checking",
-            "For every graph state and configuration the list form of bft / dft_recursive / dft_iterative must equal "
-            "the canonical order computed by a reference implementation driven by the real neighbors(); bft's hop "
-            "distance must be non-decreasing; the same call repeated, and the same graph rebuilt on a fresh pool, "
-            "must give the same index sequence.",
-            "Same small scope as C06. A violation that reproduces in only some replays (order depending on id()) "
-            "is still reported."),
-    "C08": (G, "DESIGN.md section 4 C08",
-            "exhaustive enumeration of small graphs x vertex classes x all attribute labellings x start x universe x sought value; oracle = first match of the real traversal",
-            "model_checking",
-            "For every graph state, 3 vertex classes (plain, falsy via __bool__, falsy via __len__), every labelling of "
-            "the vertices over {absent, 1000, (1,2)}, every start and universe, sought values that are equal but not "
-            "identical to the stored ones, an absent value and an absent attribute name, each search must return the "
-            "very object that is the first match in the list its corresponding real traversal returns, or None.",
-            "Edge classes of the two edge families only; caching off."),
-    "C09": (G, "DESIGN.md section 4 C09",
-            "exhaustive enumeration of small ordered multigraphs x ordered pairs x flag/unknown/filter product; set oracle, count relation with neighbors(), unlink on a fresh copy",
-            "model_checking",
-            "In every graph state every ordered pair (incl. a is b) x direction flag x 3 unknown modes x 4 filters: "
-            "find_links vs an independent set oracle, its size vs the multiplicity of b in the real neighbors(a) under "
-            "corresponding settings, and after unlink(a,b) on a fresh copy emptiness for that pair and unchanged "
-            "answers for every other pair.",
-            "Caching off; ends are vertices; same ERROR-mode slack as C04."),
-    "C14": (G, "DESIGN.md section 4 C14",
-            "exhaustive enumeration of small graphs x vertex-class assignments x membership lists x option tables; output parsed back",
-            "model_checking",
-            "Every graph state over 4-5 link classes and vertex classes Vertex/VA/VB, every membership list (subsets, "
-            "reversed, empty) and two option tables: the text is parsed into declaration and relation multisets and "
-            "compared with the members and links (titles, type of the nearest configured class, orientation, arrow ends).",
-            "show_attrs restricted to ^i$; relation lines for links leaving the universe are tolerated if "
-            "attributable to an existing link attached to a member."),
-    "C15": (G, "DESIGN.md section 4 C15",
-            "exhaustive enumeration of small graphs x membership lists x rvfunc/refunc; Network nodes/edges compared with the graph",
-            "model_checking",
-            "Every graph state (directed, undirected and other two-ended links, self-loops, parallel and boundary "
-            "links), every membership list, rvfunc/refunc on and off: node ids and labels, the multiset of arrowed "
-            "edges, every plain edge, and 'every internal link leaves its node pair joined' are checked.",
-            "pyvis merges repeated undirected edges itself; the oracle follows the statement (at least one edge)."),
-    "C16": (G, "DESIGN.md section 4 C16",
-            "exhaustive enumeration of small graphs x membership lists x rfunc x sort; line-by-line expected text from the real neighbors()",
-            "model_checking",
-            "Every graph state, every membership list (subsets, permuted, empty), rfunc in {None, <i>}, sort in {None, i, "
-            "-i, permutation}: the output must consist of exactly the expected lines in the expected order.",
-            "Edge classes of the two edge families; injective sort keys; trailing blanks after the arrow of a "
-            "neighbour-less line are tolerated."),
-    "C11": ("engine_e", "DESIGN.md section 4 C11",
-            "complete enumeration of bounded builder inputs x link types x prior structures; reference-model replay and read-back on every case",
-            "model_checking",
-            "Every adjacency dict over <=3 vertices (every ordered key selection, every row of length <=2-3 with repeats "
-            "and self entries, lists and tuples), every 1x1/2x2 matrix over {0,1,'x',None}, every 3x3 0/1 matrix, side "
-            "arrays in order / permuted / with a repeated vertex, and every malformed shape up to 3x3, each x 5 link "
-            "types x {no prior structure, a prior link and an older universe}: one builder call on fresh objects, "
-            "compared with the documented construction (members in first-mention order, one link of exactly the "
-            "requested class per pair in input order, oriented key->value, prior structure untouched), read back "
-            "through neighbors()/find_links(); malformed input must raise ValueError and touch nothing.",
-            "Inputs bounded as stated; read-back only for link types of the two edge families."),
-    "C13": (F, "DESIGN.md section 4 C13",
-            "fault enumeration: for every graph state / entry point / callback, a fault at the k-th callback invocation for every k (pairs where swallowed) x 3 exception types x caching on/off",
-            "fault_enumeration",
-            "Every ordered multigraph of the space x caching flag x membership list x 26 read-only entry-point/"
-            "callback pairs x every argument: the fault-free run fixes the invocation count N; then every single "
-            "fault position k<=N (and every pair for exceptions the library swallows) x {Boom, AssertionError, "
-            "StopIteration} is executed on fresh objects; the complete vars() snapshot of every vertex, link and "
-            "universe must be identical before and after, and the healed repeat call on the same objects with the "
-            "same wrapper must equal the pristine twin's answer.",
-            "The neighbour memo is exempt from the snapshot (C05 covers it); PlantUML lines are compared as a "
-            "sorted multiset (set iteration order)."),
-    "C20": (F, "DESIGN.md section 4 C20",
-            "complete enumeration of the owned random source's answers (count<=4), deviation-bounded (<=2) beyond; postconditions on every execution",
-            "model_checking",
-            "randgraph's only nondeterminism (random.randint / random.sample) is replaced by a proxy whose every "
-            "answer is a choice point; for count 1..4 every answer sequence is executed (every leaf of the choice "
-            "tree once), for larger counts the default answers and all 1- and 2-deviations, each x 3 edge types x 5 "
-            "connectivities x 2 ensurelink; each execution must return a universe of exactly count vertices "
-            "labelled 0..count-1 whose links are of the requested type with both ends members (and every vertex v1 "
-            "of a link under ensurelink). A finite seed sweep with the real random module checks reproducibility.",
-            "Any use of another random primitive is a harness error; counts above 4 are not exhaustive."),
-    "C05": (H, "DESIGN.md section 4 C05",
-            "explicit-state BFS to fixpoint over interleavings of mutators, cache-warming queries, flag toggles and pickle round trips (memo contents in the state); differential state invariant; fresh-interpreter leg",
-            "model_checking",
-            "The neighbour memo of every vertex (including stale contents), the caching flag and the registration bits "
-            "are part of the canonical state; ops are every mutator from either object, warm(v) for every vertex, flag "
-            "on/off and a pickle round trip. In every reached state, on a throw-away copy, every neighbour key at every "
-            "vertex and the three traversals and searches from every start must answer the same with the flag as it "
-            "is and with the flag forced off. Every reached state is also dumped with nrpickler and loaded in two "
-            "fresh interpreters (flag off / on) that run the same battery.",
-            "Bounded pools (2-3 vertices, <=2-3 links); filters are pure; asymmetric structures (C01) are not expanded."),
-}
-
+# the per-check table lives in tools/checks.json (id -> engine, design_ref, technique, category, text, note)
+CHECKS = {k: (v["engine"], v["design_ref"], v["technique"], v["category"], v["text"], v["note"])
+          for k, v in json.load(open(os.path.join(ROOT, "tools", "checks.json"))).items()}
 
 NOT_YET = "check under construction in this session (see DESIGN.md for the planned exhaustive check)"
 
